@@ -18,7 +18,7 @@ Theorem c16_handover_keeps_reader :
 Proof. exact handover_keeps_reader. Qed.
 Print Assumptions c16_handover_keeps_reader.
 
-(* segmentation independence across the hand-over, for EVERY classifier of live commands, every chunk list
+(* the general statement behind it: segmentation independence across the hand-over, for EVERY classifier of live commands, every chunk list
    (empty chunks, cuts inside the live command, inside the commands after it, k-way) and every hand-over
    that keeps the carry-over buffer: a run in which nothing that was parsed stayed unhandled has the outcome
    the specification reads off the concatenated bytes — the same messages handled in normal mode, the same
@@ -30,19 +30,33 @@ Theorem c16_live_chunking : forall h golive chunks,
 Proof. exact t38_live_chunking. Qed.
 Print Assumptions c16_live_chunking.
 
-(* the same for the hand-over of the SOURCE (buffer flag computed from Gen/LiveHandover.v).  Partial: the
-   hypothesis acted_all excludes the runs in which the pinned code forgets commands (known findings
-   C16-live-handover-drops-rest, C16-live-error-drops-read; c16_live_drop_refuted below). *)
-Theorem c16_live_chunking_partial : forall golive chunks,
-  len (concat chunks) < BIG ->
-  acted_all (t38_live_run ho_source golive chunks) = true ->
-  t38_live_run ho_source golive chunks = t38_live_spec golive (concat chunks).
-Proof. exact t38_live_chunking_source. Qed.
-Print Assumptions c16_live_chunking_partial.
+(* the two other facts the model's hand-over is read from: the messages of the hand-over read that follow the
+   live command, and that read's error, are handed back to the reader (unreadAfter) and returned by the first
+   ReadMessages of the live loop; liveSubscription handles the messages of a read before it acts on its error *)
+Theorem c16_handover_keeps_rest :
+  rest_kept Gen.LiveHandover.handover_read_reader Gen.LiveHandover.handover_loop_var
+    Gen.LiveHandover.handover_reader_method_calls Gen.LiveHandover.reader_methods
+    Gen.LiveHandover.readmessages_head Gen.LiveHandover.readmessages_tail = true.
+Proof. exact handover_keeps_rest. Qed.
+Print Assumptions c16_handover_keeps_rest.
 
-(* the repaired hand-over (the rest of the hand-over read and its error are given to the live loop, a live
-   loop handles the messages of a read before it acts on the error): no hypothesis but the length is left;
-   every segmentation gives the outcome of the stream sent in one piece *)
+Theorem c16_live_loop_msgs_before_error :
+  live_err_after_msgs Gen.LiveHandover.live_subscription_loop = true.
+Proof. exact live_loop_msgs_before_error. Qed.
+Print Assumptions c16_live_loop_msgs_before_error.
+
+(* FULL segmentation independence across the hand-over for the SOURCE (all three flags of the hand-over computed
+   from Gen/LiveHandover.v): for every classifier of live commands and every chunk list the outcome is the
+   specification read off the concatenated bytes, hence the outcome of the stream sent in one piece.  No
+   excluding hypothesis; streams shorter than 2^62 bytes. *)
+Theorem c16_live_chunking_source : forall golive chunks,
+  len (concat chunks) < BIG ->
+  t38_live_run ho_source golive chunks = t38_live_spec golive (concat chunks) /\
+  t38_live_run ho_source golive chunks = t38_live_run ho_source golive [concat chunks].
+Proof. exact t38_live_chunking_source. Qed.
+Print Assumptions c16_live_chunking_source.
+
+(* the same stated for the explicit flags ho_repaired = (true, true, true) *)
 Theorem c16_live_chunking_repaired : forall golive chunks,
   len (concat chunks) < BIG ->
   t38_live_run ho_repaired golive chunks = t38_live_spec golive (concat chunks) /\
@@ -68,18 +82,19 @@ Theorem c16_lost_buffer_refuted :
 Proof. exact lost_buffer_refuted. Qed.
 Print Assumptions c16_lost_buffer_refuted.
 
-(* known findings, true of the pinned code (reproduced on the real server, docs/notes/C16.md):
+(* the two defects of the hand-over BEFORE the repair (ho_pinned; reproduced on the real server at d289b20,
+   docs/notes/C16.md, repaired by proposed_fixes/C16-live-handover-drops-rest and C16-live-error-drops-read):
    "SUBSCRIBE ch\r\nPING x\r\n" in ONE read never answers PING; the same bytes cut after SUBSCRIBE or inside
    PING do.  In live mode "PING x\r\n*x\r\n" in one read closes without answering PING; in two reads PING is
    answered first. *)
-Theorem c16_live_drop_refuted :
+Theorem c16_live_drop_pinned_refuted :
   (t38_live_run ho_pinned is_sub [w_sub ++ w_ping1 ++ w_ping2] = LOpen true [m_sub] [] [m_ping] None [] [] /\
    t38_live_run ho_pinned is_sub [w_sub; w_ping1 ++ w_ping2] = LOpen true [m_sub] [m_ping] [] None [] [] /\
    t38_live_run ho_pinned is_sub [w_sub ++ w_ping1; w_ping2] = LOpen true [m_sub] [m_ping] [] None [] []) /\
   (t38_live_run ho_pinned is_sub [w_sub; w_ping1 ++ w_ping2 ++ w_bad] = LClosed true [m_sub] [] [] None [m_ping] (EParse EMultiBulk) /\
    t38_live_run ho_pinned is_sub [w_sub; w_ping1 ++ w_ping2; w_bad] = LClosed true [m_sub] [m_ping] [] None [] (EParse EMultiBulk)).
 Proof. exact (conj pinned_drops_rest pinned_live_error_drops). Qed.
-Print Assumptions c16_live_drop_refuted.
+Print Assumptions c16_live_drop_pinned_refuted.
 
 (* non-vacuity: a run of the source model through a hand-over in which nothing stays unhandled, cut inside
    the command after SUBSCRIBE and byte-wise inside SUBSCRIBE itself *)
@@ -87,5 +102,7 @@ Example c16_live_nonvacuous :
   acted_all (t38_live_run ho_source is_sub [w_sub ++ w_ping1; w_ping2]) = true /\
   t38_live_run ho_source is_sub [w_sub ++ w_ping1; w_ping2] = LOpen true [m_sub] [m_ping] [] None [] [] /\
   t38_live_run ho_source is_sub [[83;85]%N; [66;83;67;82;73;66;69;32;99;104;13]%N; [10;80]%N; [73;78;71;32;120;13;10]%N]
-    = LOpen true [m_sub] [m_ping] [] None [] [].
+    = LOpen true [m_sub] [m_ping] [] None [] [] /\
+  t38_live_run ho_source is_sub [w_sub ++ w_ping1 ++ w_ping2] = LOpen true [m_sub] [m_ping] [] None [] [] /\
+  t38_live_run ho_source is_sub [w_sub; w_ping1 ++ w_ping2 ++ w_bad] = LClosed true [m_sub] [m_ping] [] None [] (EParse EMultiBulk).
 Proof. vm_compute. repeat split; reflexivity. Qed.
